@@ -9,6 +9,7 @@ import (
 	"encoding/xml"
 	"fmt"
 	"io"
+	"reflect"
 	"regexp"
 	"sort"
 	"strconv"
@@ -237,11 +238,18 @@ func (d *Doc) Norm() {
 }
 
 var (
-	langCode  = map[int]string{1: "zh", 2: "en", 3: "fr", 4: "ja", 5: "no", 6: "de"}
-	langName  = map[string]int{astisub.LanguageChinese: 1, astisub.LanguageEnglish: 2, astisub.LanguageFrench: 3, astisub.LanguageJapanese: 4, astisub.LanguageNorwegian: 5}
-	titles    = map[int]string{1: "Title & <more>"}
-	copyr     = map[int]string{1: "Copyright © 2020 \"quoted\""}
-	attrVals  = map[string]map[int]string{"color": {1: "#ff0000", 2: "white"}, "textAlign": {1: "center", 2: "start"}, "fontStyle": {1: "italic"}, "zIndex": {1: "1", 2: "2"}}
+	langCode = map[int]string{1: "zh", 2: "en", 3: "fr", 4: "ja", 5: "no", 6: "de"}
+	langName = map[string]int{astisub.LanguageChinese: 1, astisub.LanguageEnglish: 2, astisub.LanguageFrench: 3, astisub.LanguageJapanese: 4, astisub.LanguageNorwegian: 5}
+	titles   = map[int]string{1: "Title & <more>"}
+	copyr    = map[int]string{1: "Copyright © 2020 \"quoted\""}
+	// every tts:* attribute the library carries: name -> value atoms (the field is TTML + the capitalised name)
+	attrVals = map[string]map[int]string{"color": {1: "#ff0000", 2: "white"}, "textAlign": {1: "center", 2: "start"}, "fontStyle": {1: "italic", 2: "oblique"}, "zIndex": {1: "1", 2: "2"},
+		"backgroundColor": {1: "#000000", 2: "transparent"}, "direction": {1: "ltr", 2: "rtl"}, "display": {1: "auto", 2: "none"}, "displayAlign": {1: "before", 2: "after"},
+		"extent": {1: "80% 10%", 2: "40% 20%"}, "fontFamily": {1: "monospaceSerif", 2: "Arial"}, "fontSize": {1: "100%", 2: "18px"}, "fontWeight": {1: "bold", 2: "normal"},
+		"lineHeight": {1: "125%", 2: "normal"}, "opacity": {1: "1.0", 2: "0.5"}, "origin": {1: "10% 80%", 2: "0% 0%"}, "overflow": {1: "visible", 2: "hidden"},
+		"padding": {1: "0px", 2: "1px 2px"}, "showBackground": {1: "always", 2: "whenActive"}, "textDecoration": {1: "underline", 2: "none"},
+		"textOutline": {1: "black 1px", 2: "none"}, "unicodeBidi": {1: "normal", 2: "embed"}, "visibility": {1: "visible", 2: "hidden"},
+		"wrapOption": {1: "wrap", 2: "noWrap"}, "writingMode": {1: "lrtb", 2: "tbrl"}}
 	textPools = []map[int]string{
 		{1: "Hello world", 2: "second text", 3: "third"},
 		{1: "a & b <c> \"d\" 'e'", 2: "x < y > z", 3: "\U0001F600 non-BMP \U00010348"},
@@ -252,7 +260,9 @@ var (
 
 type Pool struct{ Text map[int]string }
 
-func PoolFor(n int) Pool { return Pool{Text: textPools[((n%len(textPools))+len(textPools))%len(textPools)]} }
+func PoolFor(n int) Pool {
+	return Pool{Text: textPools[((n%len(textPools))+len(textPools))%len(textPools)]}
+}
 
 func rev(m map[int]string, s string) int {
 	for k, v := range m {
@@ -566,23 +576,26 @@ func Lex(data []byte, p Pool) (Doc, error) {
 
 func sp(s string) *string { return &s }
 
+func fieldOf(sa *astisub.StyleAttributes, attr string) reflect.Value {
+	return reflect.ValueOf(sa).Elem().FieldByName("TTML" + strings.ToUpper(attr[:1]) + attr[1:])
+}
+
 func buildAttrs(m abs.IntMap) *astisub.StyleAttributes {
 	if len(m) == 0 {
 		return nil
 	}
 	sa := &astisub.StyleAttributes{}
 	for k, v := range m {
-		switch k {
-		case "color":
-			sa.TTMLColor = sp(attrVals[k][v])
-		case "textAlign":
-			sa.TTMLTextAlign = sp(attrVals[k][v])
-		case "fontStyle":
-			sa.TTMLFontStyle = sp(attrVals[k][v])
-		case "zIndex":
-			z, _ := strconv.Atoi(attrVals[k][v])
-			sa.TTMLZIndex = &z
+		f := fieldOf(sa, k)
+		if !f.IsValid() {
+			panic("no TTML attribute " + k)
 		}
+		if k == "zIndex" {
+			z, _ := strconv.Atoi(attrVals[k][v])
+			f.Set(reflect.ValueOf(&z))
+			continue
+		}
+		f.Set(reflect.ValueOf(sp(attrVals[k][v])))
 	}
 	return sa
 }
@@ -647,17 +660,16 @@ func projAttrs(sa *astisub.StyleAttributes) abs.IntMap {
 	if sa == nil {
 		return m
 	}
-	if sa.TTMLColor != nil {
-		m["color"] = rev(attrVals["color"], *sa.TTMLColor)
-	}
-	if sa.TTMLTextAlign != nil {
-		m["textAlign"] = rev(attrVals["textAlign"], *sa.TTMLTextAlign)
-	}
-	if sa.TTMLFontStyle != nil {
-		m["fontStyle"] = rev(attrVals["fontStyle"], *sa.TTMLFontStyle)
-	}
-	if sa.TTMLZIndex != nil {
-		m["zIndex"] = rev(attrVals["zIndex"], strconv.Itoa(*sa.TTMLZIndex))
+	for k, vals := range attrVals {
+		f := fieldOf(sa, k)
+		if !f.IsValid() || f.IsNil() {
+			continue
+		}
+		if k == "zIndex" {
+			m[k] = rev(vals, strconv.Itoa(int(f.Elem().Int())))
+			continue
+		}
+		m[k] = rev(vals, f.Elem().String())
 	}
 	return m
 }
